@@ -6,6 +6,7 @@ import (
 	"go/constant"
 	"go/token"
 	"go/types"
+	"sort"
 	"strings"
 
 	"golang.org/x/tools/go/ssa"
@@ -24,7 +25,8 @@ func init() {
 		Run:         runC09,
 	})
 	ruleText["R09.1"] = "in the execution function (the one looping over bltn calls on a *frame), each such loop's condition is false whenever frame.runid() != Interpreter.runid(), for the frame passed to the bltn"
-	ruleText["R09.2"] = "each newFrame(anc, n, id) call outside New passes id = anc.runid() for the same anc or Interpreter.runid(); functions building a frame composite set id, anc, root and done"
+	ruleText["R09.2"] = "each newFrame(anc, n, id) call with a non-nil ancestor passes id = anc.runid() for the same anc (never the interpreter's current id: a frame created after stop() would belong to the next run); functions building a frame composite set id, anc, root and done"
+	ruleText["R09.7"] = "the re-synchronisation frame.setrunid(Interpreter.runid()) is not reachable from a goroutine started by a context watcher: it takes the id current at that moment, so a stop() delivered before it (cancellation while the program is still being compiled) is erased and the program runs to completion after the *WithContext call has returned"
 	ruleText["R09.3"] = "blocking reflect.Value.Recv/Send are unreachable when Interpreter.cancelChan is true; each reflect.Select call has a case loaded from frame.done and the closure returns nil when the chosen index is the position of that case"
 	ruleText["R09.4"] = "each exported method taking a context.Context that evaluates in a goroutine selects on ctx.Done(), calls (*Interpreter).stop in that case and returns ctx.Err()"
 	ruleText["R09.5"] = "(*Interpreter).stop atomically advances Interpreter.id and closes Interpreter.done; (*Interpreter).run stores a receive SelectCase on Interpreter.done into frame.done"
@@ -43,6 +45,74 @@ func runC09(c *Config, r *Report) {
 	c09R4(ic, r)
 	c09R5(ic, r)
 	c09R6(ic, r)
+	c09R7(ic, r)
+}
+
+// c09R7: re-synchronisation of the root frame id reachable from watcher goroutines.
+func c09R7(ic *IC, r *Report) {
+	g := buildSGraph(ic.SP)
+	// functions that re-synchronise: call frame.setrunid with an argument from Interpreter.runid
+	resync := map[*ssa.Function]bool{}
+	for _, fn := range g.Funcs {
+		for _, b := range fn.Blocks {
+			for _, ins := range b.Instrs {
+				call, ok := ins.(*ssa.Call)
+				if !ok || staticCalleeName(&call.Call) != "interp.(*frame).setrunid" {
+					continue
+				}
+				for _, o := range origins(call.Call.Args[1], map[ssa.Value]bool{}) {
+					if oc, ok := o.(*ssa.Call); ok && staticCalleeName(&oc.Call) == "interp.(*Interpreter).runid" {
+						resync[fn] = true
+					}
+				}
+			}
+		}
+	}
+	if len(resync) == 0 {
+		r.Errorf("R09.7: no re-synchronisation frame.setrunid(Interpreter.runid()) found (Execute expected)")
+		return
+	}
+	n := 0
+	for cl, parent := range g.GoRoots {
+		top := parent
+		for top.Parent() != nil {
+			top = top.Parent()
+		}
+		if top.Signature.Recv() == nil || !token.IsExported(top.Name()) {
+			continue
+		}
+		// only watchers: the method calls stop
+		callsStop := false
+		for _, e := range g.Out[top] {
+			if e.To.Name() == "stop" {
+				callsStop = true
+			}
+		}
+		if !callsStop {
+			continue
+		}
+		n++
+		set, parentOf := g.reachSet(true, cl)
+		hit := false
+		var fs []*ssa.Function
+		for f := range set {
+			if resync[f] {
+				fs = append(fs, f)
+			}
+		}
+		sort.Slice(fs, func(i, j int) bool { return fs[i].Name() < fs[j].Name() })
+		for _, f := range fs {
+			hit = true
+			r.Fail("R09.7", top.Name()+"/resync:"+f.Name(), ic.pos(f.Pos()),
+				"the goroutine started by "+top.Name()+" reaches "+strings.Join(ssaPath(parentOf, f), " -> ")+", which sets the root frame's id to the interpreter's id current at that moment: a cancellation delivered earlier (while compiling) is erased and the program runs after "+top.Name()+" returned ctx.Err()")
+		}
+		if !hit {
+			r.Pass("R09.7", top.Name()+"/resync", ic.pos(cl.Pos()), "no re-synchronisation of the run id after the goroutine started")
+		}
+	}
+	if n < 2 {
+		r.Errorf("R09.7: %d watcher goroutines found", n)
+	}
 }
 
 func isNamed(t types.Type, name string) bool {
@@ -220,7 +290,10 @@ func c09R2(ic *IC, r *Report) {
 							why = "id is the run id of " + describeValue(recv) + " but the ancestor is " + describeValue(anc)
 						}
 					case "interp.(*Interpreter).runid":
-						okID = true
+						// The interpreter's current id is not the ancestor's: a frame created after
+						// stop() would belong to the next run and keep executing.
+						okID = false
+						why = "id is the interpreter's current run id, not the run id of the ancestor " + describeValue(anc)
 					default:
 						okID = false
 						why = "id is " + describeValue(o)
@@ -229,7 +302,7 @@ func c09R2(ic *IC, r *Report) {
 						break
 					}
 				}
-				r.Check(okID, "R09.2", key, pos, "id inherited from the ancestor frame (or the interpreter's current id)",
+				r.Check(okID, "R09.2", key, pos, "id inherited from the ancestor frame",
 					"newFrame does not inherit the run id of its ancestor ("+why+"): the callee/goroutine frame is not stopped by the cancellation that stops its caller")
 			}
 		}
@@ -682,6 +755,19 @@ func c09R5(ic *IC, r *Report) {
 	doneI := ic.field("Interpreter", "done")
 	doneF := ic.field("frame", "done")
 	adv, closes := false, false
+	var advNode, closeNode ast.Node
+	// locals of stop assigned from the done field (done := interp.done)
+	doneLocals := map[types.Object]bool{}
+	ast.Inspect(stop.Decl.Body, func(n ast.Node) bool {
+		if as, ok := n.(*ast.AssignStmt); ok && len(as.Lhs) == len(as.Rhs) {
+			for i, l := range as.Lhs {
+				if id, ok := l.(*ast.Ident); ok && selField(ic.Info, as.Rhs[i]) == doneI {
+					doneLocals[ic.Info.ObjectOf(id)] = true
+				}
+			}
+		}
+		return true
+	})
 	ast.Inspect(stop.Decl.Body, func(n ast.Node) bool {
 		c, ok := n.(*ast.CallExpr)
 		if !ok {
@@ -691,18 +777,32 @@ func c09R5(ic *IC, r *Report) {
 			if u, ok := unparen(c.Args[0]).(*ast.UnaryExpr); ok && u.Op == token.AND && selField(ic.Info, u.X) == idFld {
 				if tv, ok := ic.Info.Types[c.Args[1]]; ok && tv.Value != nil && constant.Sign(tv.Value) > 0 {
 					adv = true
+					advNode = c
 				}
 			}
 		}
 		if id, ok := unparen(c.Fun).(*ast.Ident); ok {
-			if b, ok := ic.Info.Uses[id].(*types.Builtin); ok && b.Name() == "close" && len(c.Args) == 1 && selField(ic.Info, c.Args[0]) == doneI {
-				closes = true
+			if b, ok := ic.Info.Uses[id].(*types.Builtin); ok && b.Name() == "close" && len(c.Args) == 1 {
+				isDone := selField(ic.Info, c.Args[0]) == doneI
+				if aid, ok := unparen(c.Args[0]).(*ast.Ident); ok && doneLocals[ic.Info.ObjectOf(aid)] {
+					isDone = true
+				}
+				if isDone {
+					closes = true
+					closeNode = c
+				}
 			}
 		}
 		return true
 	})
 	r.Check(adv, "R09.5", "stop/advances-id", ic.pos(stop.Decl.Pos()), "atomic.AddUint64(&interp.id, k>0)", "(*Interpreter).stop does not atomically advance Interpreter.id: running loops are not stopped")
 	r.Check(closes, "R09.5", "stop/closes-done", ic.pos(stop.Decl.Pos()), "close(interp.done)", "(*Interpreter).stop does not close Interpreter.done: blocked channel operations are not released")
+	if adv && closes {
+		fg := buildFlow(stop.Decl.Body, ic.Info)
+		d, ok := fg.dominates(advNode, closeNode)
+		r.Check(ok && d, "R09.5", "stop/order", ic.pos(closeNode.Pos()), "the run id is advanced before the done channel is closed",
+			"(*Interpreter).stop closes Interpreter.done before advancing Interpreter.id: a goroutine released from a blocking channel operation by the close returns to a caller whose loop still sees equal run ids and keeps executing statements until the id is advanced")
+	}
 	// run: f.done = reflect.SelectCase{Dir: SelectRecv, Chan: reflect.ValueOf(interp.done)} (through a local).
 	installs := false
 	locals := map[types.Object]ast.Expr{}
